@@ -87,8 +87,14 @@ def check(fb, ctx):
     pred = reach.run(fb, ctx, ent, rule="REACH", crates=("biscuit_auth", "biscuit_parser"))
 
     # positive control for REACH: the catalogue must recognise the panic sources of a known body
-    ctrl = fb.body("biscuit_auth::token::Biscuit::block")
-    ctx.control("REACH sees `index - 1` and `blocks[..]` in Biscuit::block", len(reach.sites_of(fb, ctrl)) >= 4)
+    # (over the whole library, not one function: a control tied to the shape of one body fails when that body is rewritten)
+    seen_kinds = {}
+    for b_ in fb.bodies.values():
+        if b_["crate"] in ("biscuit_auth", "biscuit_parser") and b_.get("blocks") and not b_.get("exp"):
+            for s_ in reach.sites_of(fb, b_):
+                seen_kinds[s_["what"]] = seen_kinds.get(s_["what"], 0) + 1
+    ctx.control("REACH recognises arithmetic, indexing and unwrap panic sources in the library (>= 80 sites of >= 6 kinds)",
+                sum(seen_kinds.values()) >= 80 and len(seen_kinds) >= 6 and any(k.startswith("Overflow") for k in seen_kinds) and any("index" in k for k in seen_kinds) and any("unwrap" in k for k in seen_kinds))
 
     # ---- RECUR
     keys = {k for k in pred if not reach.is_trusted_expansion(fb.bodies[k])}
